@@ -554,6 +554,10 @@ fn BrotliReverseBits(num_bits: usize, mut bits: u16) -> u16 {
     retval >>= (0usize.wrapping_sub(num_bits) & 0x3usize);
     retval as u16
 }
+#[cfg(brotli_verif)]
+pub fn verif_reverse_bits(num_bits: usize, bits: u16) -> u16 {
+    BrotliReverseBits(num_bits, bits)
+}
 const MAX_HUFFMAN_BITS: usize = 16;
 pub fn BrotliConvertBitDepthsToSymbols(depth: &[u8], len: usize, bits: &mut [u16]) {
     /* In Brotli, all bit depths are [1..15]
